@@ -146,6 +146,15 @@ CHECKS.update({
     ),
 })
 
+CHECKS.update({
+    "C19": (
+        "chk-macro", EX, "bounded-exhaustive enumeration of json! programs from a grammar with one production per macro arm, compiled by rustc against /repo and executed (program-space exploration; the macro expander is the transition function)",
+        "Every document with <= 3 (quick) / <= 4 (thorough) nodes over 3 leaves x 4 key forms (string literal, parenthesised literal, expression munched token by token, a second key) and, one size deeper, over 2 leaves x 2 key forms - nested arrays and objects to depth 3, duplicate keys, trailing comma present or absent in every non-empty container - plus 15 literal kinds (null/true/false, positive and negative integers and floats, strings, expression elements, empty containers) in 19 one-hole contexts: 6 153 programs quick, 114 311 thorough. Each program is compiled (one program per source line, 16-64 crates) and its value compared with Value::parse_str of the same document as JSON text; a compile error in a legal program is a violation.",
+        "Number literals are restricted to those whose JSON spelling is the literal itself; expression arms are represented by Value::from(7) and KA.clone(). rustc's macro expander is trusted.",
+        "4/C19",
+    ),
+})
+
 NOT_YET = {}
 
 props = [json.loads(l) for l in open(f"{root}/properties.jsonl")]
